@@ -20,7 +20,6 @@ The type is observed as `int k = _Generic((E), <candidate types>: index, default
 data.  Triples the reference model R (vlib/cmodel.py) calls constraint violations must be rejected (one run each).
 Witnesses (gcc host, clang --target x3) are consulted on every disagreement and on a sanity sample.
 """
-import itertools
 import os
 import random
 import re
